@@ -105,6 +105,19 @@ theorem cfg32_cab_le_62 (e : Nat) : cfg32.cab e ≤ 62 := by
 
 theorem cfg32_cab_small : cfg32.cab 0 = 62 ∧ cfg32.cab 1 = 62 := by decide
 
+/-- `compute_array_bits` is a `W`-bit value (in fact at most 64) -/
+theorem cfg64_cab_lt (e : Nat) : cfg64.cab e < 2 ^ cfg64.W := by
+  have h := cfg64_cab_le_full e
+  have : cfg64.W = 64 := rfl
+  rw [this] at h ⊢
+  exact Nat.lt_of_le_of_lt h (by decide)
+
+theorem cfg32_cab_lt (e : Nat) : cfg32.cab e < 2 ^ cfg32.W := by
+  have h := cfg32_cab_le_62 e
+  have : cfg32.W = 32 := rfl
+  rw [this]
+  exact Nat.lt_of_le_of_lt h (by decide)
+
 /-! ### instances -/
 
 theorem cfg64_ok : CfgOK cfg64 where
@@ -113,6 +126,7 @@ theorem cfg64_ok : CfgOK cfg64 where
   codec := TinyC.codec64_ok
   cab_bound := cfg64_cab_bound
   cab_le := cfg64_cab_le
+  cab_lt := cfg64_cab_lt
   denseCap_pos := cfg64_denseCap_pos
   grow := cfg64_grow
 
@@ -122,6 +136,7 @@ theorem cfg32_ok : CfgOK cfg32 where
   codec := TinyC.codec32_ok
   cab_bound := cfg32_cab_bound
   cab_le := cfg32_cab_le
+  cab_lt := cfg32_cab_lt
   denseCap_pos := cfg32_denseCap_pos
   grow := cfg32_grow
 
